@@ -7,5 +7,5 @@ CONSTANTS
   MaxX = 2
   MaxP = 0
   MaxL = 0
-  MaxTop = 2
+  MaxTop = 1
 CHECK_DEADLOCK FALSE
